@@ -34,9 +34,25 @@ ASSUMPTIONS = [
     "np.interp of the critical pairs is the linear interpolation evalPL (base of the property's 'interpolated linearly')",
     "on lattice/half/dyadic input the code's (b+d)/2, (d-b)/2 are exact, so its output is certified with eps = 0; on "
     "decimal/uniform input the output is certified within eps = 1e-9*max(1,|coordinates|) (rounding of midpoints)",
-    "an infinite death anywhere but in the last row, NaN coordinates and zero-length bars are outside the property's domain and are not generated",
+    "NaN coordinates and zero-length bars are outside the property's domain and are not generated",
+    "an infinite death anywhere but in the last row is outside the property's domain ('finite diagrams'; only a trailing infinite "
+    "bar is removed): the code then computes with inf and returns non-finite critical pairs, the model answers NonFinite; a "
+    "separate stream generates such diagrams and checks that code and model agree that the input is outside (nothing else is claimed)",
+    "integer-dtype diagrams (int64/int32/int16/int8/uint8 arrays, every coordinate representable in the dtype) are an ordinary "
+    "part of the main stream and are compared exactly with the dtype-free model, including the range where b+d exceeds the dtype "
+    "(there the midpoint (b+d)/2 wrapped around before /repo fix 56d4899: int8 [[100,120],[90,110]] gave the abscissa -28)",
 ]
-TRUSTED = ["the guarded trace persim.landscapes.exact._VERIF_TRACE is used only to attribute a wrong result to the known repeated-bar shortcut"]
+TRUSTED = ["the guarded trace persim.landscapes.exact._VERIF_TRACE is used only to attribute a wrong result to the known repeated-bar shortcut",
+           "the compiled driver executable is trusted as compiled by Lean's compiler, not checked by the kernel"]
+# theorems that carry a clause of the property (helpers, concrete instances and definitional restatements excluded); names
+# that are not (or no longer) declared in Props/C03.lean are dropped at run time
+CORE_THEOREMS_WANTED = ["certify_sound", "certifyTol_sound", "hom_deg_selects", "trailing_inf_removed", "sweepNoShortcut_correct",
+                        "sweep_correct_of_not_fired", "shortcut_counterexample", "exact_never_fuel"]
+# integer dtypes: (smallest, largest representable value, scale factors k applied to the lattice coordinates 0..6 — the larger
+# ones make b+d exceed the dtype, where the midpoint wrapped around before /repo fix 56d4899)
+INT_DTYPES = {"int64": (-2 ** 63, 2 ** 63 - 1, [1, 10, 2 ** 40, 2 ** 60]), "int32": (-2 ** 31, 2 ** 31 - 1, [1, 10, 2 ** 20, 2 ** 28]),
+              "int16": (-2 ** 15, 2 ** 15 - 1, [1, 10, 1000, 5000]), "int8": (-128, 127, [1, 3, 10, 20]),
+              "uint8": (0, 255, [1, 10, 20, 40])}
 KNOWN_KEY = "repeated-bar-shortcut"
 KNOWN_CASE = [[1.0, 5.0], [1.0, 5.0], [3.0, 6.0]]
 EXACT_MODES = ("lattice", "half", "dyadic")
@@ -201,7 +217,30 @@ def gen_case(ctx, nmax):
             if r.random() < 0.3:
                 D.append([g.coord(mode), math.inf])
         dgms.append(D)
-    return {"dgms": dgms, "hom_deg": h, "mode": mode, "class": cls}
+    c = {"dgms": dgms, "hom_deg": h, "mode": mode, "class": cls}
+    if mode == "lattice" and r.random() < 0.5 and all(float(x).is_integer() for D in dgms for b in D for x in b if math.isfinite(x)):
+        # an integer-dtype diagram: no infinite bar (not representable), coordinates k*(0..6)
+        dt = r.choice(sorted(INT_DTYPES))
+        lo_dt, hi_dt, ks = INT_DTYPES[dt]
+        k = float(r.choice(ks + ks[2:] + ks[3:]))
+        D2 = [[[b[0] * k, b[1] * k] for b in D if math.isfinite(b[1])] for D in dgms]
+        vals = [x for D in D2 for b in D for x in b]
+        if all(D2) and lo_dt <= min(vals) and max(vals) <= hi_dt:      # every coordinate is representable in the dtype
+            c["dgms"], c["dtype"] = D2, dt
+            c["wraps"] = any(b[0] + b[1] > hi_dt or b[0] + b[1] < lo_dt for b in D2[h])
+    return c
+
+
+def gen_inf_not_last(ctx):
+    """a diagram with an infinite death in a row that is not the last one (possibly one in the last row too)"""
+    g, r = ctx.gen, ctx.rng
+    mode = r.choice(["lattice", "half", "dyadic", "dec"])
+    D = gen_bars(ctx, r.randint(1, 6), mode, "mixed")
+    for _ in range(r.randint(1, 2)):
+        D.insert(r.randrange(len(D)), [g.coord(mode), math.inf])
+    if r.random() < 0.3:
+        D.append([g.coord(mode), math.inf])
+    return {"dgms": [D], "hom_deg": 0, "mode": mode, "class": "inf_not_last"}
 
 
 def selected_bars(case):
@@ -214,8 +253,8 @@ def selected_bars(case):
 
 # ----------------------------------------------------------------------------- the real code
 
-def arr(D):
-    return np.array(D, dtype=float).reshape(-1, 2)
+def arr(D, dtype=float):
+    return np.array(D, dtype=float).astype(dtype).reshape(-1, 2)
 
 
 class Hang(BaseException):
@@ -229,7 +268,7 @@ def _alarm(signum, frame):
     raise Hang()
 
 
-def run_code(dgms, hom_deg):
+def run_code(dgms, hom_deg, dtype=float):
     """-> (status, critical pairs as lists of [x,y] floats | error kind, number of shortcut firings);
     status 'hang' when the sweep does not terminate (a rewritten loop can spin forever while its list grows)"""
     mod = common.pm("landscapes.exact")
@@ -241,7 +280,7 @@ def run_code(dgms, hom_deg):
     signal.setitimer(signal.ITIMER_REAL, HANG_S)
     try:
         with np.errstate(all="ignore"):
-            st, v, _ = call(mod.PersLandscapeExact, dgms=[arr(D) for D in dgms], hom_deg=hom_deg)
+            st, v, _ = call(mod.PersLandscapeExact, dgms=[arr(D, dtype) for D in dgms], hom_deg=hom_deg)
     except Hang:
         del trace[:]
         return "hang", "no result within %.0f s" % HANG_S, 0
@@ -318,9 +357,9 @@ def run(ctx):
     for i, c in enumerate(cases):
         if i < 400:
             with cov:
-                st, out, fired = run_code(c["dgms"], c["hom_deg"])
+                st, out, fired = run_code(c["dgms"], c["hom_deg"], c.get("dtype", float))
         else:
-            st, out, fired = run_code(c["dgms"], c["hom_deg"])
+            st, out, fired = run_code(c["dgms"], c["hom_deg"], c.get("dtype", float))
         bars = selected_bars(c)
         exact_mode = c["mode"] in EXACT_MODES
         eps = 0.0 if exact_mode else 1e-9 * scale_of(bars)
@@ -347,7 +386,8 @@ def run(ctx):
             ctx.count("rounding_edge_certified_via_model")
             cert = [True]
         cls = classify(bars)
-        ctx.case({"hom_deg": c["hom_deg"], "dgms": c["dgms"]}, nontrivial=len(bars) >= 2, sample_every=401)
+        ctx.case({"hom_deg": c["hom_deg"], "dgms": c["dgms"], "dtype": c.get("dtype", "float64")}, nontrivial=len(bars) >= 2, sample_every=401)
+        ctx.count("dtype:" + c.get("dtype", "float64") + (":b+d_exceeds_dtype" if c.get("wraps") else ""))
         ctx.count("mode:" + c["mode"]); ctx.count("gen_class:" + c["class"]); ctx.count("bars:%d" % min(len(bars), 41))
         for k in cls:
             ctx.count("has:" + k)
@@ -359,7 +399,7 @@ def run(ctx):
             # a well-formed diagram must yield a landscape: an exception or a non-terminating sweep fails the property
             ctx.count("no_result:" + st)
             ctx.violation("PersLandscapeExact gives no landscape for a well-formed diagram: %s %s" % (st, out),
-                          {"dgms": c["dgms"], "hom_deg": c["hom_deg"]}, found_input=True)
+                          {"dgms": c["dgms"], "hom_deg": c["hom_deg"], "dtype": c.get("dtype", "float64")}, found_input=True)
             if len(ctx.violations) > 5:
                 break
             continue
@@ -384,7 +424,7 @@ def run(ctx):
                 ctx.known(KNOWN_KEY, known_text(kf))
             else:
                 ctx.violation("exact landscape differs from the k-th-largest-tent definition and the repeated-bar shortcut did "
-                              "not fire: " + wrong, {"dgms": c["dgms"], "hom_deg": c["hom_deg"]},
+                              "not fire: " + wrong, {"dgms": c["dgms"], "hom_deg": c["hom_deg"], "dtype": c.get("dtype", "float64")},
                               found_input=True, checker=repr(cert), code_output=out)
         if not mdl_ok:
             # correspondence broke.  Either the property holds on this input (the checker accepted the code's output), or
@@ -410,7 +450,7 @@ def run(ctx):
                 ctx.test("pointwise_interp", ok)
                 if not ok and not fired:
                     ctx.violation("np.interp of the code's critical pairs differs from the definition at a sampled t although the "
-                                  "checker accepted the output", {"dgms": c["dgms"], "hom_deg": c["hom_deg"]}, found_input=True)
+                                  "checker accepted the output", {"dgms": c["dgms"], "hom_deg": c["hom_deg"], "dtype": c.get("dtype", "float64")}, found_input=True)
         if len(ctx.violations) > 5:
             break
 
@@ -428,6 +468,7 @@ def run(ctx):
                        "code": fm.get("code"), "code_fired": fm.get("code_fired"), "model": fm.get("model")}, found_input=False)
     class_share(ctx, programs)
     rejects(ctx)
+    inf_not_last(ctx)
     known_replay(ctx, kf)
 
 
@@ -455,6 +496,28 @@ def class_share(ctx, programs):
     low = [k for k, v in share.items() if v < 0.10]
     if low:
         raise common.HarnessError("generator promise broken: classes below 10%%: %s" % low)
+
+
+def inf_not_last(ctx):
+    """outside the property's domain: an infinite death in a row that is not the last.  Only agreement of code and model that
+    the input is outside is checked: the code returns non-finite critical pairs, the model answers NonFinite."""
+    cases = [gen_inf_not_last(ctx) for _ in range(ctx.n(60, 600))]
+    cases.append({"dgms": [[[1.0, 5.0], [0.0, math.inf], [3.0, 6.0]]], "hom_deg": 0})
+    answers = ask(["pl.exact %d %s" % (c["hom_deg"], enc(c["dgms"])) for c in cases])
+    bad = None
+    for c, ans in zip(cases, answers):
+        st, out, _ = run_code(c["dgms"], c["hom_deg"])
+        ctx.count("inf_not_last:code_" + st)
+        ok = st == "nonfinite" and ans == "err:NonFinite"
+        ctx.test("inf_not_last_is_outside_for_code_and_model", ok)
+        if not ok and bad is None:
+            bad = (c, st, out, ans)
+    if bad is not None:
+        c, st, out, ans = bad
+        ctx.violation("a diagram with an infinite death in a row that is not the last: the code answers %s %s, the model %r (the "
+                      "model treats it as outside; the property says nothing about such diagrams)" % (st, str(out)[:200], ans),
+                      {"correspondence": "pl.exact", "line": "pl.exact %d %s" % (c["hom_deg"], enc(c["dgms"])), "code": "%s %s" % (st, str(out)[:300]),
+                       "model": repr(ans)}, found_input=False)
 
 
 def rejects(ctx):
@@ -507,8 +570,9 @@ def replay(ctx, rep):
         return True
     dgms = [[[float(x) for x in b] for b in D] for D in c["dgms"]]
     h = c["hom_deg"]
-    st, out, fired = run_code(dgms, h)
-    print("PersLandscapeExact(dgms=%r, hom_deg=%d).critical_pairs ->" % (dgms, h))
+    dtype = c.get("dtype", "float64")
+    st, out, fired = run_code(dgms, h, float if dtype == "float64" else dtype)
+    print("PersLandscapeExact(dgms=%r (dtype %s), hom_deg=%d).critical_pairs ->" % (dgms, dtype, h))
     print("  ", out, " shortcut fired:", fired)
     if st != "ok":
         print("no landscape:", st, out)
